@@ -31,7 +31,7 @@ class MapVal:
 
 
 class IterVal:
-    def __init__(self, items): self.items = list(items); self.pos = 0
+    def __init__(self, items): self.items = list(items); self.pos = 0; self.ops = []     # `pull` is attached by pycont (adaptor chain)
 
 
 class ElemRef:
@@ -186,8 +186,14 @@ def m_collect(it, callee, args):
     if isinstance(mi, Agg) and mi.name == "MapIter":
         itv, clo = mi.fields
         return VecVal([it.call_closure(clo, [x]) for x in itv.items])
+    if hasattr(mi, "pull") and (not isinstance(mi, IterVal) or mi.ops):      # adaptor chain (filter/map/...): drain it lazily
+        out = []
+        while True:
+            ok, x = mi.pull(it)
+            if not ok: return VecVal(out)
+            out.append(x)
     if isinstance(mi, IterVal):
-        return VecVal(mi.items)
+        return VecVal(mi.items[mi.pos:])
     raise Unsupported(f"collect of {mi!r}")
 
 
@@ -195,12 +201,15 @@ def m_into_iter(it, callee, args):
     v = val(args[0])
     if isinstance(v, VecVal): return IterVal(v.items)
     if isinstance(v, Agg) and v.name == "Range": return v
-    if isinstance(v, IterVal): return v
+    if isinstance(v, IterVal) or hasattr(v, "pull"): return v
     raise Unsupported(f"into_iter of {v!r}")
 
 
 def m_iter_next(it, callee, args):
     r = val(args[0])
+    if hasattr(r, "pull") and (not isinstance(r, IterVal) or r.ops):
+        ok, x = r.pull(it)
+        return some(x) if ok else none()
     if isinstance(r, IterVal):
         if r.pos < len(r.items):
             x = r.items[r.pos]; r.pos += 1
